@@ -1180,7 +1180,8 @@ class Container:
             raise ValueError("Solution is impossible to create.")
 
         for i in range(len(a)):
-            if abs(sum(a[i] * xs) - b[i]) > 1e-6:
+            # (relative to the size of the row's own terms: an absolute bound would accept any microgram-scale request)
+            if abs(sum(a[i] * xs) - b[i]) > 1e-6 * (abs(b[i]) + sum(abs(a[i] * xs))) / 2:
                 raise ValueError("Solution is impossible to create.")
 
         initial_contents = list((substance, f"{x} {'U' if substance.is_enzyme() else 'mol'}") for x, substance in
